@@ -55,7 +55,7 @@ class C13(Prop):
         if rc != 0 or not hostrows:
             raise RuntimeError("C13 host harness did not run: rc=%s\n%s" % (rc, out[-2000:]))
         return {"open": [r for r in rows if r["kind"] == "open"], "route": [r for r in rows if r["kind"] == "route"], "redirect": redir, "host": hostrows,
-                "route_body": [r for r in rows if r["kind"] == "route-body"]}
+                "route_body": [r for r in rows if r["kind"] == "route-body"], "route_stream": [r for r in rows if r["kind"] == "route-stream"]}
 
     @staticmethod
     def _cls(r):
@@ -72,6 +72,13 @@ class C13(Prop):
 
     def oracle(self, ctx, obs):
         res = []
+        for r in obs.get("route_stream", []):
+            rp = {"driver": "TestVerifC13: GET /events/stream (outside the shim prefix) over real HTTP through websockets.Proxy; the wrapped handler writes two pieces 1.5 s apart and flushes the first", "observed": r}
+            if r.get("err") or r.get("status") != 200 or r.get("body") != "data: first\n\ndata: second\n\n":
+                res.append(("non-shim-stream-altered", "the streamed response did not arrive as produced (%s)" % (r.get("err") or "status %s body %r" % (r.get("status"), r.get("body"))), rp))
+            elif r.get("first_piece_after_ms", 10**9) > r.get("all_after_ms", 0) - 800:
+                res.append(("non-shim-stream-buffered", "the first piece of a streamed response reached the client %s ms after the request, the whole response after %s ms: it was held back until the handler returned (the handler could flush: %s)" % (
+                    r.get("first_piece_after_ms"), r.get("all_after_ms"), r.get("handler_could_flush")), rp))
         for r in obs.get("route_body", []):
             if r["status"] != 299 or r["wrapped_read"] != r["size"] or r.get("wrapped_err"):
                 res.append(("non-shim-request-body-altered", "a POST of %d bytes (%s) to a path outside the shim prefix reached the normal handler as %s bytes (%s), status %s" % (
